@@ -116,7 +116,7 @@ class PyEmit:
         elif t == "brk": out.append(ind + "break")
         elif t == "cont": out.append(ind + "continue")
         elif t == "decl": out.append(f"{ind}{self.v(s[1])}: {ty_py(self.decl[s[1]])} = {self.e(s[2])}")
-        elif t == "assign": out.append(f"{ind}{self.v(s[1])} = {self.e(s[2])}")
+        elif t in ("assign", "infer"): out.append(f"{ind}{self.v(s[1])} = {self.e(s[2])}")
         elif t == "setAttr": out.append(f"{ind}{self.e(s[1])}.a{s[2]} = {self.e(s[3])}")
         elif t == "expr": out.append(ind + self.e(s[1]))
         elif t == "ret": out.append(f"{ind}return {self.e(s[1])}")
@@ -222,6 +222,7 @@ def stmt_lean(s) -> list:
     if t == "cont": return ["CT"]
     if t == "decl": return ["D", str(s[1])] + expr_lean(s[2])
     if t == "assign": return ["X", str(s[1])] + expr_lean(s[2])
+    if t == "infer": return ["Y", str(s[1])] + expr_lean(s[2])
     if t == "setAttr": return ["W"] + expr_lean(s[1]) + [str(s[2])] + expr_lean(s[3])
     if t == "expr": return ["E"] + expr_lean(s[1])
     if t == "ret": return ["R"] + expr_lean(s[1])
